@@ -118,6 +118,12 @@ int32 psDiffMsecs(psTime_t then, psTime_t now, void *userPtr)
         /* borrow 1 second worth of usec */
         now.psTimeInternal.tv_usec += 1000000;
     }
+    /* Saturate: a difference of more than 2^31 ms (24.8 days) must not wrap
+       to a negative or small value, callers compare it with lifetimes. */
+    if (now.psTimeInternal.tv_sec - then.psTimeInternal.tv_sec >= 0x7fffffff / 1000)
+    {
+        return 0x7fffffff;
+    }
     return (int32) ((now.psTimeInternal.tv_sec - then.psTimeInternal.tv_sec)
             * 1000) +
            ((now.psTimeInternal.tv_usec - then.psTimeInternal.tv_usec) /
@@ -222,6 +228,14 @@ int32 psDiffMsecs(psTime_t then, psTime_t now, void *userPtr)
         now.psTimeInternal.tv_sec--;
         /* borrow 1 second worth of nsec */
         now.psTimeInternal.tv_nsec += 1000000000L;
+        }
+        /* Saturate: a difference of more than 2^31 ms (24.8 days) must not
+           wrap to a negative or small value, callers compare it with
+           lifetimes. */
+        if (now.psTimeInternal.tv_sec - then.psTimeInternal.tv_sec >=
+                0x7fffffff / 1000)
+        {
+            return 0x7fffffff;
         }
         return (int32) ((now.psTimeInternal.tv_sec -
                 then.psTimeInternal.tv_sec) *
